@@ -24,9 +24,11 @@ fn real_stub_core() -> Value {
 pub fn layer_a_check(prop: &str, tier: &str) -> i32 {
     let seed = seed_from_env();
     let (programs, histories) = match (prop, tier) {
-        (_, "quick") => (12, 24),
+        (_, "quick") => (8, 20),
         (_, _) => (96, 64),
     };
+    let programs = std::env::var("BSSIM_PROGRAMS").ok().and_then(|s| s.parse().ok()).unwrap_or(programs);
+    let histories = std::env::var("BSSIM_HISTORIES").ok().and_then(|s| s.parse().ok()).unwrap_or(histories);
     let specs: Vec<progen::ProgramSpec> = (0..programs)
         .map(|k| {
             let mut t = Tape::record(rng::derive(seed, "prog.micro", k as u64));
